@@ -185,7 +185,15 @@ def bvLine (impl : String) (par n : Nat) (h : String) : String :=
   let prefixOnes := (List.range n).map fun k => (bits.take (k + 1)).count true
   let r1 := if impl == "rg" && par > 0 then (List.range n).map (RG.rank1 words par) else prefixOnes
   let r0 := (List.range n).zip r1 |>.map fun (k, r) => k + 1 - r
-  s!"BV n={n} acc={acc} r1={joinNat r1} r0={joinNat r0} s1={joinNat (positionsOf bits true)} s0={joinNat (positionsOf bits false)} cnt={bits.count true}"
+  -- select1 through the exact model of BitSequenceRG::select1 (and it must agree with the plain positions)
+  let total := bits.count true
+  let s1plain := positionsOf bits true
+  let s1 := if impl == "rg" && par > 0 then
+      (List.range total).map fun j => RG.select1 (words.take (n / 32 + 1)) par n total (j + 1)
+    else s1plain.map some
+  let s1txt := if s1 == s1plain.map some then joinNat s1plain
+    else "MODEL-DIFFERS-FROM-PLAIN:" ++ joinNat (s1.map fun o => o.getD 4000000000)
+  s!"BV n={n} acc={acc} r1={joinNat r1} r0={joinNat r0} s1={s1txt} s0={joinNat (positionsOf bits false)} cnt={bits.count true}"
 
 def wtLine (syms : String) : String :=
   let seq := (splitComma syms).map fun x => x.toNat?.getD 0
